@@ -5,6 +5,9 @@ import (
 	"go/ast"
 	"go/token"
 	"go/types"
+	"golibcheck/internal/bits"
+	"golibcheck/internal/paths"
+	"os"
 	"sort"
 	"strings"
 
@@ -737,60 +740,178 @@ func c07Mask(p *core.Program, r *core.Report, reg *registryResult) {
 			continue // the property speaks about the SQL / DB-connection packs CreatePack can produce
 		}
 		info := fi.Pkg.TypesInfo
-		// the family chain: if Ver > 50000 {GO} else if ... else {PHP}
-		var chain *ast.IfStmt
-		for _, s := range fi.Decl.Body.List {
-			if ifs, ok := s.(*ast.IfStmt); ok {
-				if be, ok := ifs.Cond.(*ast.BinaryExpr); ok {
-					if sel, ok := be.X.(*ast.SelectorExpr); ok && sel.Sel.Name == "Ver" {
-						chain = ifs
-						break
+		base := core.FuncName(fi.Obj)
+		// Process() is walked once per representative protocol version of the two families that send
+		// raw connection strings. Conditions that only depend on the version are decided by evaluating
+		// them for that version (comparisons, family helpers, tables); everything else (Dbc empty or
+		// not, SQL length) is explored both ways. On every path with a non-empty Dbc the password key
+		// must be masked for both separators.
+		families := map[string][]int64{"Go": {50001, 50100, 59999}, "PHP": {10100, 10104, 10105, 15000, 20000}}
+		for _, fam := range []string{"Go", "PHP"} {
+			c := base + " [" + fam + "]"
+			var probs []string
+			npaths := 0
+			undec := ""
+			for _, ver := range families[fam] {
+				ip := &bits.Interp{P: p, ConstTables: true}
+				ip.Sel = func(sel *ast.SelectorExpr) *bits.Value {
+					if fv, ok := info.ObjectOf(sel.Sel).(*types.Var); ok && fv.IsField() && fv.Name() == "Ver" {
+						return &bits.Value{V: bits.Const(uint64(ver), 32), Sign: true}
+					}
+					return nil
+				}
+				mentionsVer := func(e ast.Expr) bool {
+					found := false
+					var walk func(n ast.Node, depth int)
+					walk = func(n ast.Node, depth int) {
+						ast.Inspect(n, func(m ast.Node) bool {
+							switch v := m.(type) {
+							case *ast.SelectorExpr:
+								if v.Sel.Name == "Ver" {
+									found = true
+								}
+							case *ast.CallExpr:
+								// helpers of the package that look at the version (family(), carriesError())
+								if fn := calleeFunc(info, v); fn != nil && fn.Pkg() == fi.Obj.Pkg() && depth < 3 {
+									if cfi := p.FuncOf(fn); cfi != nil && cfi.Decl.Body != nil {
+										walk(cfi.Decl.Body, depth+1)
+									}
+								}
+							}
+							return !found
+						})
+					}
+					walk(e, 0)
+					return found
+				}
+				in := newInliner(p, fi, nil)
+				ps, over := paths.Enumerate(fi.Decl.Body, paths.Config{Info: info, Inline: in.Body, Expand: in.Expand, Unroll: in.FixedList, MaxInline: 3,
+					Fold: func(cnd ast.Expr) (bool, bool) {
+						if !mentionsVer(cnd) {
+							return false, false
+						}
+						if v, ok := ip.EvalConst(fi, cnd); ok {
+							return true, v != 0
+						}
+						undec = "a version-dependent condition could not be evaluated for version " + fmt.Sprint(ver) + ": " + types.ExprString(cnd)
+						return false, false
+					},
+					SwitchCase: func(sw *ast.SwitchStmt) int {
+						if sw.Tag == nil || !mentionsVer(sw.Tag) {
+							return -2
+						}
+						tag, ok := ip.EvalConst(fi, sw.Tag)
+						if !ok {
+							undec = "a version-dependent switch could not be evaluated for version " + fmt.Sprint(ver)
+							return -2
+						}
+						for i, cc := range sw.Body.List {
+							for _, ce := range cc.(*ast.CaseClause).List {
+								if cv, ok := ip.EvalConst(fi, ce); ok && cv == tag {
+									return i
+								}
+							}
+						}
+						return -1
+					},
+					Cond: func(cnd ast.Expr, v bool) *paths.Event {
+						norm := func(e ast.Expr) string {
+							s := stripSpaces(types.ExprString(e))
+							if i := strings.LastIndex(s, ".Dbc"); i >= 0 && strings.HasSuffix(s, ".Dbc") {
+								return "Dbc"
+							}
+							return s
+						}
+						return &paths.Event{Kind: "COND", Arg: condKey(info, norm, cnd, v), Pos: cnd.Pos()}
+					},
+					Classify: func(n ast.Node) []paths.Event {
+						var out []paths.Event
+						as, ok := n.(*ast.AssignStmt)
+						if !ok {
+							return nil
+						}
+						mctx := &maskCtx{p: p, info: info}
+						for i, rhs := range as.Rhs {
+							call, ok := ast.Unparen(rhs).(*ast.CallExpr)
+							if !ok || i >= len(as.Lhs) {
+								continue
+							}
+							if isCallTo(info, call, core.ModPath+"/util/paramtext", "NewParamKVSeperate") && len(call.Args) == 3 {
+								if id, ok := as.Lhs[i].(*ast.Ident); ok {
+									sep, _ := mctx.constStr(call.Args[1])
+									out = append(out, paths.Event{Kind: "NEWKV", Arg: id.Name + "=" + sep, Pos: as.Pos()})
+								}
+								continue
+							}
+							if sel, ok := call.Fun.(*ast.SelectorExpr); ok && sel.Sel.Name == "ToStringStr" && len(call.Args) == 2 {
+								key, _ := mctx.constStr(call.Args[0])
+								lsel, isSel := ast.Unparen(as.Lhs[i]).(*ast.SelectorExpr)
+								if key != "password" || !isSel || lsel.Sel.Name != "Dbc" {
+									continue
+								}
+								switch x := ast.Unparen(sel.X).(type) {
+								case *ast.Ident:
+									out = append(out, paths.Event{Kind: "MASKUSE", Arg: x.Name, Pos: as.Pos()})
+								case *ast.CallExpr:
+									if isCallTo(info, x, core.ModPath+"/util/paramtext", "NewParamKVSeperate") && len(x.Args) == 3 {
+										if sep, ok := mctx.constStr(x.Args[1]); ok {
+											out = append(out, paths.Event{Kind: "MASK", Arg: sep, Pos: as.Pos()})
+										}
+									}
+								}
+							}
+						}
+						return out
+					}})
+				if over {
+					undec = "too many paths"
+				}
+				for _, pa := range ps {
+					if pa.Has("PANIC") {
+						continue
+					}
+					if hasCmp(pa, "Dbc", "==", "\"\"", true) || hasCmp(pa, "len(Dbc)", "==", "0", true) || hasCmp(pa, "len(Dbc)", ">", "0", false) {
+						continue // empty connection string: nothing to mask
+					}
+					npaths++
+					if os.Getenv("C07_DEBUG") != "" {
+						fmt.Fprintln(os.Stderr, "MASKPATH", c, ver, pa.String())
+					}
+					last := map[string]string{}
+					got := map[string]bool{}
+					for _, e := range pa {
+						switch e.Kind {
+						case "NEWKV":
+							if k := strings.Index(e.Arg, "="); k > 0 {
+								last[e.Arg[:k]] = e.Arg[k+1:]
+							}
+						case "MASKUSE":
+							if sep, ok := last[e.Arg]; ok {
+								got[sep] = true
+							}
+						case "MASK":
+							got[e.Arg] = true
+						}
+					}
+					var miss []string
+					if !got[" "] {
+						miss = append(miss, "' '")
+					}
+					if !got[";"] {
+						miss = append(miss, "';'")
+					}
+					if len(miss) > 0 {
+						probs = append(probs, fmt.Sprintf("at version %d a path with a non-empty Dbc does not mask the password key for separator %s: a raw secret can stay in the pack", ver, strings.Join(miss, " and ")))
 					}
 				}
 			}
-		}
-		base := core.FuncName(fi.Obj)
-		if chain == nil {
-			r.Undec("C07.mask", base, p.Pos(fi.Decl.Pos()), "no agent-family branch on Ver found in Process()")
-			continue
-		}
-		goArm := chain.Body
-		var phpArm *ast.BlockStmt
-		cur := chain
-		for {
-			if next, ok := cur.Else.(*ast.IfStmt); ok {
-				cur = next
-				continue
-			}
-			if blk, ok := cur.Else.(*ast.BlockStmt); ok {
-				phpArm = blk
-			}
-			break
-		}
-		gv, gok := constIntOf(info, chain.Cond.(*ast.BinaryExpr).Y)
-		if !gok || gv != 50000 || chain.Cond.(*ast.BinaryExpr).Op != token.GTR {
-			r.Undec("C07.mask", base, p.Pos(chain.Pos()), "first family branch is not `Ver > 50000` (Go)")
-			continue
-		}
-		for fam, arm := range map[string]*ast.BlockStmt{"Go": goArm, "PHP": phpArm} {
-			c := base + " [" + fam + "]"
-			if arm == nil {
-				r.Viol("C07.mask", c, p.Pos(fi.Decl.Pos()), "no "+fam+" branch")
-				continue
-			}
-			ctx := &maskCtx{p: p, info: info}
-			got := ctx.block(arm.List, map[types.Object]string{})
-			if got[" "] && got[";"] {
-				r.OK("C07.mask", c, p.Pos(arm.Pos()), "Dbc re-assigned from ToStringStr(\"password\") for both ' ' and ';' on every path with Dbc != \"\"")
-			} else {
-				var miss []string
-				if !got[" "] {
-					miss = append(miss, "' '")
-				}
-				if !got[";"] {
-					miss = append(miss, "';'")
-				}
-				r.Viol("C07.mask", c, p.Pos(arm.Pos()), "on some path with a non-empty Dbc the password key is not masked for separator "+strings.Join(miss, " and ")+": a raw secret can stay in the pack")
+			switch {
+			case undec != "":
+				r.Undec("C07.mask", c, p.Pos(fi.Decl.Pos()), undec)
+			case npaths == 0:
+				r.Viol("C07.mask", c, p.Pos(fi.Decl.Pos()), "no path handles a non-empty Dbc for the "+fam+" family")
+			default:
+				fileProbs(r, "C07.mask", c, p.Pos(fi.Decl.Pos()), uniq(probs), "Dbc re-assigned from ToStringStr(\"password\") for both ' ' and ';' on every path with Dbc != \"\"")
 			}
 		}
 	}
